@@ -483,6 +483,30 @@ class Executor:
         for s, (a, b) in self.evs([e.left, e.right], st):
             yield from self.binop(s, e.op, a, b, e.lineno)
 
+    def speculate(self, node, st):
+        """evaluate `node` in `st` without committing: returns the value when evaluation is a single, side-effect
+        free path (no fork, no pending raise, no new obligation, no state change); otherwise None and every
+        effect is rolled back (the caller then forks properly)"""
+        n_obl = len(self.obligations)
+        env0, pc0, sig0 = dict(st.env), len(st.pc), len(st.sig)
+        self._raises.append([])
+        try:
+            try:
+                res = list(self.ev(node, st))
+            finally:
+                pend = self._raises.pop()
+            ok = (len(res) == 1 and res[0][0] is st and not pend and len(self.obligations) == n_obl
+                  and len(st.pc) == pc0 and len(st.sig) == sig0 and st.env == env0)
+        except Unsupported:
+            raise
+        if ok:
+            return (res[0][1],)
+        del self.obligations[n_obl:]
+        st.env = env0
+        del st.pc[pc0:]
+        del st.sig[sig0:]
+        return None
+
     def ev_BoolOp(self, e, st):
         is_and = isinstance(e.op, ast.And)
 
@@ -498,17 +522,20 @@ class Executor:
                     else:
                         yield s1, v
                     continue
-                # symbolic truthiness: try to merge when the rest is side-effect free and scalar
-                rest = list(go(i + 1, s1))
-                if len(rest) == 1 and rest[0][0] is s1 and self._mergeable(v, rest[0][1]):
-                    r = rest[0][1]
-                    if sym.is_bool(v) and sym.is_bool(r):
-                        yield s1, (sym.And(v, r) if is_and else sym.Or(v, r))
-                    elif is_and:
-                        yield s1, sym.If(t, r, v)
-                    else:
-                        yield s1, sym.If(t, v, r)
-                    continue
+                # symbolic truthiness: merge when the rest is a single side-effect free scalar evaluation
+                if True:
+                    rest_node = e.values[i + 1] if i + 1 == len(e.values) - 1 else ast.copy_location(
+                        ast.BoolOp(op=e.op, values=e.values[i + 1:]), e)
+                    sp = self.speculate(rest_node, s1)
+                    if sp is not None and self._mergeable(v, sp[0]):
+                        r = sp[0]
+                        if sym.is_bool(v) and sym.is_bool(r):
+                            yield s1, (sym.And(v, r) if is_and else sym.Or(v, r))
+                        elif is_and:
+                            yield s1, sym.If(t, r, v)
+                        else:
+                            yield s1, sym.If(t, v, r)
+                        continue
                 # fork
                 s_t = s1.fork(t, f"L{e.lineno}b{i}T")
                 s_f = s1.fork(sym.Not(t), f"L{e.lineno}b{i}F")
@@ -610,11 +637,11 @@ class Executor:
             if not is_sym(t):
                 yield from self.ev(e.body if t else e.orelse, s)
                 continue
-            ra = list(self.ev(e.body, s))
-            if len(ra) == 1 and ra[0][0] is s:
-                rb = list(self.ev(e.orelse, s))
-                if len(rb) == 1 and rb[0][0] is s and self._mergeable(ra[0][1], rb[0][1]):
-                    yield s, sym.If(t, ra[0][1], rb[0][1])
+            sa = self.speculate(e.body, s)
+            if sa is not None:
+                sb = self.speculate(e.orelse, s)
+                if sb is not None and self._mergeable(sa[0], sb[0]):
+                    yield s, sym.If(t, sa[0], sb[0])
                     continue
             s_t = s.fork(t, f"L{e.lineno}eT")
             if self.feasible(s_t):
